@@ -16,7 +16,7 @@ RULE = ("wallets from random secrets through all constructors x both networks x 
         "intervals {(0,0),(0,1),(7,8),(s,s+r),(2^31-3,2^31-1),(2^31-1,2^31)} inside [0,2^31), 0..40 rows; everything recomputed "
         "from the seed by the reference model; distinct = distinct (monitor, case) digests; a wallet is non-trivial when it "
         "has >=1 row or a non-zero account"
-        " EXTENSIONS: + listings of 255..1025 and 4097 rows (thorough 16385) with real keys, one listing of 2^15+600 rows in fast mode (thorough 2^17+600), results re-read after later requests and after the caller edited them, export_wallet / export_wasabi onto one path repeatedly, accounts equal to meaningful numbers")
+        " EXTENSIONS: + listings of 255..1025 and 4097 rows (thorough 16385) with real keys, one listing of 2^15+600 rows in fast mode (thorough 2^17+600), results re-read after later requests and after the caller edited them, export_wallet / export_wasabi onto one path repeatedly, accounts equal to meaningful numbers, wallet listings of K+3 rows (thorough K-1 .. 2K+1) per harvested threshold K and purpose with rows around multiples of K decoded")
 LEVEL_TEXT = ("The dict returned by PaperWallet.generate(account, interval), the json() string and wasabi_json() of real "
               "wallets are checked by an offline checker against the reference model recomputed from the seed: account paths "
               "and SLIP-132 keys per purpose, one row per index in order, WIF/SEC/address of each row independently decoded, "
@@ -332,13 +332,13 @@ def judge_long_listing(ctx, case):
 
 
 def huge_listing_rows(case):
-    """One listing of case['n'] rows (2^15+ .. 2^17+) made in fast mode (inject.FastEC: constant PRF, memoised ecdsa - every
-    row carries the same key, but path, position, count, network tags and row shape are the real code's).  Returns
-    (wallet, testnet, keys, rows)."""
+    """One listing of case['n'] rows (2^15+ .. 2^17+) made in fast mode (inject.FastEC: 61 PRF outputs chosen by the child
+    number, memoised ecdsa - neighbouring rows carry different keys, and path, position, count, network tags and row shape are
+    the real code's).  Returns (wallet, testnet, keys, rows)."""
     from .. import inject
     import btc_hd_wallet.bip32 as b32
     w, m, mn, pw, tn = build_wallet(case)
-    with inject.FastEC([b32]):
+    with inject.FastEC([b32], variety=61):
         keys, rows = getattr(w, "bip%d" % case["purpose_listed"])(account=case["account"], interval=(case["start"], case["start"] + case["n"]))
         rows = [list(r) for r in rows]
     return w, tn, keys, rows
@@ -352,16 +352,24 @@ def judge_huge_listing(ctx, case):
     purpose, acct, s, n = case["purpose_listed"], case["account"], case["start"], case["n"]
     want_path = "m/%d'/%d'/%d'" % (purpose, 1 if tn else 0, acct)
     bad = []
+    kk, wif_ok = case.get("k", 0), {}
     if len(rows) != n:
         bad.append(("row_count", n, len(rows)))
     for j, row in enumerate(rows[:n]):
         if len(row) != 4 or row[0] != "%s/0/%d" % (want_path, s + j):
             bad.append(("row_path", "%s/0/%d" % (want_path, s + j), row[0] if row else row))
             break
-        if j % 257 == 0 or j > n - 3:
+        if j % 257 == 0 or j > n - 3 or (kk and (j % kk) in (0, 1, 2, kk - 1, kk - 2)):
             try:
                 if row[1] != raddr.KINDS[rpaper.ADDR_KIND[purpose]](bytes.fromhex(row[2]), tn):
                     bad.append(("row_address_vs_sec", j, row[1]))
+                    break
+                if row[3] not in wif_ok:
+                    c = raddr.classify_string(row[3])
+                    wif_ok[row[3]] = (c["class"] == "wif" and bool(c["testnet"]) == bool(tn) and c.get("compressed", True)
+                                      and secp.ser(secp.gmul(c["k"])).hex() == row[2])
+                if not wif_ok[row[3]]:
+                    bad.append(("row_wif_vs_sec", j, row[3][:8]))
                     break
             except Exception as ex:  # noqa
                 bad.append(("row_malformed", j, ex))
@@ -470,6 +478,22 @@ def run(ctx):
             case.update({"purpose_listed": (84, 49, 44)[(hi + ctx.seed) % 3], "n": z, "start": rnd.choice([0, 7]), "account": rnd.choice([0, 3])})
             case.pop("end", None)
             judge_huge_listing(ctx, case)
+    # one wallet listing of K+3 rows (thorough: K-1 .. 2K+1) for every threshold K written down in the code under test
+    # (vpkg.harvest / vpkg.longrun), each of the three purposes in a different shard
+    from .. import longrun
+    job = 0
+    for k, z in longrun.lengths(ctx, wide=ctx.thorough):
+        if z <= 4100:
+            continue
+        for purpose in (44, 49, 84):
+            job += 1
+            if not ctx.mine_once(job) or not longrun.affordable(ctx, "wallet", z, budget_quick=45.0, k=k):
+                continue
+            case = gen_case(rnd, 2 + job)
+            case.update({"purpose_listed": purpose, "n": z, "k": k, "start": rnd.choice([0, 7]), "account": rnd.choice([0, 3])})
+            case.pop("end", None)
+            judge_huge_listing(ctx, case)
+    ctx.extra["harvested_thresholds"] = longrun.thresholds()
 
 
 def replay(ctx, monitor, case):
